@@ -45,7 +45,10 @@ pub fn run(args: &Args, report: &Report) {
     let blocks = args.by_tier(14u32, 24);
     let c = ctx.clone();
     for_each_session(args, report, shards, sessions, move |case, rng| {
-        let cfg = SessionConfig::random(rng);
+        let mut cfg = SessionConfig::random(rng);
+        // without UTXO validation the processed-id check is the *only* barrier against replays
+        let fake = case.session % 4 == 3;
+        cfg.forbid_fake_coins = !fake;
         let mut sess = ChainSession::new(rng, cfg);
         let mut opt = GenOptions::default();
         opt.resubmit_heavy = true;
@@ -70,6 +73,7 @@ pub fn run(args: &Args, report: &Report) {
             let outs = outcomes(&plan.txs, &produced);
             count_production(&c.report, "c06", &plan, &outs, &produced);
             c.report.eval();
+            c.report.count(if fake { "c06.blocks_without_utxo_validation" } else { "c06.blocks_with_utxo_validation" });
             let replay = || {
                 case.replay(
                     plan.height,
@@ -122,6 +126,9 @@ pub fn run(args: &Args, report: &Report) {
                     }
                     Outcome::Skipped(e) if e == "TransactionIdCollision" => {
                         c.report.count(&format!("c06.resubmission_skipped_collision.{class}"));
+                        if fake {
+                            c.report.count("c06.resubmission_skipped_collision_without_utxo_validation");
+                        }
                         c.report.count("c06.resubmissions_skipped");
                     }
                     Outcome::Skipped(e) => {
@@ -231,6 +238,7 @@ pub fn run(args: &Args, report: &Report) {
     if args.replay.is_none() {
         report.require("c06.nontrivial_blocks", args.by_tier(300, 3_000));
         report.require("c06.resubmissions_skipped", args.by_tier(400, 4_000));
+        report.require("c06.resubmission_skipped_collision_without_utxo_validation", args.by_tier(100, 1_000));
         report.require("c06.resubmission_skipped_collision.same_block", args.by_tier(30, 300));
         report.require("c06.resubmission_skipped_collision.next_block", args.by_tier(60, 600));
         report.require("c06.resubmission_skipped_collision.many_blocks_later", args.by_tier(60, 600));
@@ -246,6 +254,7 @@ pub fn run(args: &Args, report: &Report) {
         false,
         &[
             "history = blocks committed by the session (in-memory database); the regenesis leg is covered by C39's monitor",
+            "a quarter of the sessions run with forbid_fake_coins = false so that spent inputs do not mask a missing processed-id check",
             "a duplicate inside one block whose first copy was skipped may legitimately execute",
         ],
     );
